@@ -463,6 +463,20 @@ func main() {
 					tr := protos.StatusTriple(erpc.NewStatus(cmd.Code, cmd.Msg, causeArg(cmd.Cause)))
 					exp = &tr
 				case "ok":
+					// the caller may wish a body codec for the reply: a registered one is used (the struct kinds can be carried
+					// by each text codec), an unregistered wish is ignored - either way the call is OK with the handler's result
+					switch r.Intn(3) {
+					case 0:
+						a := []byte{1, 'q', 250}[r.Intn(3)]
+						settings = append(settings, erpc.WithAcceptBodyCodec(a))
+						class = fmt.Sprintf("accept-unregistered-%d", a)
+					case 1:
+						if kind == "json" || kind == "form" || kind == "xml" {
+							a := []byte{codec.ID_JSON, codec.ID_FORM, codec.ID_XML}[r.Intn(3)]
+							settings = append(settings, erpc.WithAcceptBodyCodec(a))
+							class = fmt.Sprintf("accept-%c", a)
+						}
+					}
 				case "mismatch":
 					mr := mismatchResult(kind, r)
 					if mr == nil {
